@@ -14,6 +14,10 @@ CHECKS = {
    text="FileCache.tla (a transcription of filecache.go: LRU list, per-entry refcounts, the removed map, capacity 0 pass-through) is model-checked exhaustively for LentOpen/ClosedOnce/ReleasedClosed/RefsOK/Bound/NoPanic/NoSpuriousErr; every reachable transition of the model is executed on a real FileCache over real files and TLC judges, after every call, the observed usability of every handle (Stat), the descriptor count from /proc/self/fd, Len/Cap, errors and panics with policy-independent rules; seeded random histories over more names/capacities extend the bound.",
    note="small-scope hypothesis for the exhaustive part (2-3 names, capacities 0..3, <= 8 calls); a closed handle is observed through Stat failing; TLC and community modules trusted. Concurrent use is covered only by the single-lock argument in DESIGN.md, not by this check.",
    ref="DESIGN.md §3.8, §6 C14"),
+ "C15": dict(engine="bstore", technique="TLC model checking of Blockstore.tla + replay of every reachable model transition on the real HashedBlockstore + TLC trace validation (BlockstoreTrace.tla)",
+   text="Blockstore.tla (the blockstore contract over an immutable store: first write wins, aliasing by multihash, typed not-found, cancelled contexts without side effects, hash-on-read on/off over matching and mismatching bytes) is model-checked; every reachable transition is executed on a real HashedBlockstore and TLC judges each logged outcome plus a post-call probe (Has, GetSize, Get of every multihash); seeded random histories over 4 hash functions, 3 codecs, CIDv0/v1 and block sizes 0 B..1 KiB extend the bound.",
+   note="small-scope hypothesis for the exhaustive part; identity multihashes and digests shorter than 4 bytes are outside the property (key constraints of C01); TLC and community modules trusted.",
+   ref="DESIGN.md §3.9, §6 C15"),
 }
 
 NOT_APPLICABLE = [
@@ -52,6 +56,7 @@ def main():
         "hooks": {"guard": "verif (Go build tag)", "enable": "go build -tags verif (the harness in /verif/harness is built with -tags verif against /repo via a replace directive)",
                   "baseline_off_cmd": BASELINE_OFF, "source_commits": [h.split()[0] for h in hooks_commits], "add_only": True},
         "engines": [
+            {"name": "bstore", "path": "harness/cmd/vrun/bstore.go + spec/Blockstore.tla + spec/BlockstoreTrace.tla", "serves_properties": ["C15"], "kind_free_text": "TLC state-graph replay on real HashedBlockstore + TLC trace monitor"},
             {"name": "fcache", "path": "harness/cmd/vrun/fcache.go + spec/FileCache.tla + spec/FileCacheTrace.tla", "serves_properties": ["C14"], "kind_free_text": "TLC state-graph replay on real FileCache + TLC trace monitor"},
             {"name": "reclist", "path": "harness/cmd/vrun/reclist.go + spec/RecordList.tla + spec/RecordListTrace.tla", "serves_properties": ["C08"], "kind_free_text": "TLC state-graph replay on real index.Index + TLC trace monitor"},
         ],
